@@ -44,7 +44,7 @@ func init() {
 			"Root kinds (a separate sub-workload): roots that are NOT flagged as certificate authorities - a self-signed server certificate pinned as a root, a self-signed certificate without basic constraints - in the LoadedCA slot, the pinned one also as CA file and as pool, " +
 			"x the other root slots x server name x insecure = " + fmt.Sprint(len(rootKindPoints())) + " points, inspected through all three entry points, plus handshakes by either route against S3 (serves the pinned certificate itself), S0 and S1. " +
 			"Loaded material shapes (a separate sub-workload): LoadedKey = typed nil pointer, zero value, key struct with the public half only (RSA and EC each: an error is owed, a panic is a violation), a non-pointer key value, an opaque crypto.Signer and an EC key on the generic (unnamed) implementation of its curve (of the right pair: an error or the whole identity; of the other pair: an error), " +
-			"a zero-value LoadedCertificate = " + fmt.Sprint(len(shapePoints())) + " points through all three entry points. " +
+			"a zero-value LoadedCertificate, and loaded CERTIFICATES of further key algorithms (an Ed25519 certificate, an ECDSA certificate on P-384, a second RSA certificate whose key nobody holds) crossed with the loaded keys of the lattice, the P-384 key and key shapes (the key of the pair: the identity - for the Ed25519 pair an error is accepted too; every other key: an error is owed) = " + fmt.Sprint(len(shapePoints())) + " points through all three entry points. " +
 			"Rotation (a separate sub-workload): " + fmt.Sprint(len(rotations)) + " call sequences x 3 entry points in which the content under ONE certificate+key path (ec > rsa > garbage > removed, and an order with re-creation) or ONE CA path (bundle > other root > removed ...) is replaced between calls; the call after every step is judged by the table row of the content that is there now (inspection only). " +
 			"Material sizes (a separate sub-workload): certificate, key and CA FILES that hold the usable material of the lattice's files but whose size is one byte below, exactly at and half a PEM block above 4 KiB, 32 KiB, 64 KiB and 1 MiB (the boundary then falls inside the block that stands last), reached with explanatory text lines or blank lines outside the PEM blocks " +
 			"or (CA files: the largest bundle not above the boundary / the smallest bundle that reaches half a block above it) with further valid root certificates minted once per worker, the needed block (the root that certifies S1, the client certificate, the client key) standing first or last in the file = " + fmt.Sprint(len(sizedPoints())) + " points, " +
@@ -270,6 +270,10 @@ func wantIdentity(id string, mat *material) (leaf *x509.Certificate, chain [][]b
 		return mat.ecCert, [][]byte{mat.ecCert.Raw}
 	case "chain":
 		return mat.chainCert, [][]byte{mat.chainCert.Raw, mat.interCert.Raw}
+	case "ed25519":
+		return mat.edCert, [][]byte{mat.edCert.Raw}
+	case "ec384":
+		return mat.ec384Cert, [][]byte{mat.ec384Cert.Raw}
 	}
 	return nil, nil
 }
@@ -375,6 +379,12 @@ func build(p Point, mat *material) (client.TLSClientOptions, *handles) {
 		o.LoadedCertificate = mat.ecCert
 	case "zero":
 		o.LoadedCertificate = &x509.Certificate{}
+	case "ed25519":
+		o.LoadedCertificate = mat.edCert
+	case "ec384":
+		o.LoadedCertificate = mat.ec384Cert
+	case "rsa2":
+		o.LoadedCertificate = mat.rsa2Cert
 	}
 	if v, ok := shapedKey(p.LoadedKey, mat); ok {
 		o.LoadedKey = v
@@ -463,6 +473,8 @@ func expect(p Point) expectation {
 		switch {
 		case p.LoadedCert == "zero":
 			e.idErr, e.idReason = true, "loaded-cert-zero-value"
+		case isAlgCert(p.LoadedCert):
+			expectAlgCert(p, &e)
 		case shapeOf(p.LoadedKey) != "":
 			expectShape(p, &e)
 		case p.LoadedKey == "":
@@ -1163,10 +1175,10 @@ func replay(m *mon.M, raw json.RawMessage) {
 		if isRootKindValue(probe.Pool) {
 			probe.Pool = ""
 		}
-		if shapeOf(probe.LoadedKey) != "" {
+		if shapeOf(probe.LoadedKey) != "" || probe.LoadedKey == "ec384" {
 			probe.LoadedKey = ""
 		}
-		if probe.LoadedCert == "zero" {
+		if probe.LoadedCert == "zero" || isAlgCert(probe.LoadedCert) {
 			probe.LoadedCert = ""
 		}
 		// files of the material-sizes sub-workload stand outside the lattice; they are built now and removed at the end
